@@ -160,4 +160,34 @@ BENIGN = [
     dict(name='b-key-schedule-locals-renamed', props=['C02', 'C15', 'C16'],
          edits=[(SETUP, """        let (info_hash, _) = labeled_extract::<Kdf>(&[], &suite_id, b"info_hash", info);""", """        let ih = labeled_extract::<Kdf>(&[], &suite_id, b"info_hash", info);
         let info_hash = ih.0;""")]),
+    dict(name='b-encoder-to-be-bytes', props=['C04', 'C02', 'C13'],
+         edits=[(UTIL, """    assert_eq!(buf.len(), 8);
+    buf[0] = ((n & 0xff00000000000000) >> 56) as u8;
+    buf[1] = ((n & 0x00ff000000000000) >> 48) as u8;
+    buf[2] = ((n & 0x0000ff0000000000) >> 40) as u8;
+    buf[3] = ((n & 0x000000ff00000000) >> 32) as u8;
+    buf[4] = ((n & 0x00000000ff000000) >> 24) as u8;
+    buf[5] = ((n & 0x0000000000ff0000) >> 16) as u8;
+    buf[6] = ((n & 0x000000000000ff00) >>  8) as u8;
+    buf[7] =  (n & 0x00000000000000ff)        as u8;""", """    buf.copy_from_slice(&n.to_be_bytes());""")]),
+    dict(name='b-nonce-xor-loop', props=['C04', 'C02'],
+         edits=[(AEAD, """    // XOR the base nonce bytes with the sequence bytes
+    let new_nonce_iter = base_nonce
+        .0
+        .iter()
+        .zip(seq_buf.0.iter())
+        .map(|(nonce_byte, seq_byte)| nonce_byte ^ seq_byte);
+
+    // This cannot fail, as the length of AeadNonce<A> is precisely the length of Seq
+    AeadNonce(GenericArray::from_exact_iter(new_nonce_iter).unwrap())""", """    // XOR the base nonce bytes with the sequence bytes
+    for i in 0..nonce_size {
+        seq_buf.0[i] ^= base_nonce.0[i];
+    }
+    seq_buf""")]),
+    dict(name='b-open-tag-via-from-bytes', props=['C05', 'C06', 'C14', 'C13'],
+         edits=[(AEAD, """        let tag = {
+            let mut t = <AeadTag<A> as Default>::default();
+            t.0.copy_from_slice(tag_slice);
+            t
+        };""", """        let tag = AeadTag::<A>::from_bytes(tag_slice)?;""")]),
 ]
